@@ -31,8 +31,7 @@ def run_pino(ctx, handler):
     T.reset()
     e = M.Engine(ctx.mir(), prune_ms=2000, max_steps=60000)
     H.install(e, record=REC)
-    for k, v in instruction_structs().items():
-        e.havoc.structs.setdefault(k, v)
+    e.havoc.ix_structs = instruction_structs()
     outs = list(e.run(f'pinocchio::instructions::{handler}::handler', [Opaque('accounts'), Opaque('data')], Path()))
     return e, outs
 
@@ -172,7 +171,73 @@ def by_token_amounts_task():
     return task
 
 
+def reposition_task():
+    """reposition_liquidity_v2: locked positions are refused; all liquidity is withdrawn from the old range (minima on what the user would receive), the position is
+    re-ranged in between, liquidity is added to the new range (maxima on requirement + fee), and only the net difference per token is transferred"""
+    handler = 'reposition_liquidity_v2'
+    EV_FIELDS = ['whirlpool', 'position', 'existing_range_tick_lower_index', 'existing_range_tick_upper_index', 'new_range_tick_lower_index', 'new_range_tick_upper_index',
+                 'existing_range_liquidity', 'new_range_liquidity', 'existing_range_token_a_amount', 'existing_range_token_b_amount', 'new_range_token_a_amount',
+                 'new_range_token_b_amount', 'token_a_transfer_amount', 'token_a_transfer_fee', 'is_token_a_transfer_from_owner', 'token_b_transfer_amount', 'token_b_transfer_fee',
+                 'is_token_b_transfer_from_owner']
+    def task(ctx):
+        from vlib import handler as H2
+        en = dict(H2.source_enums().get('Event', []))
+        fields = [f for f, _ in (en.get('LiquidityRepositioned') or [])] or EV_FIELDS
+        e, outs = run_pino(ctx, handler)
+        obls = []; n_ok = 0
+        for i, (p, r) in enumerate(outs):
+            if isinstance(r, Panic) or not (isinstance(r, E) and r.var == 'Ok'): continue
+            n_ok += 1
+            def ob(name, goal, note=''):
+                o = M.Obligation(f'{handler}:path{i}:{name}', p.pc, goal, note=note); o.replay = None; obls.append(o)
+            data = rets(e, p, r'try_from_slice$')
+            emits = [ev for ev in p.trace if ev[0] == 'call' and re.search(r'Event::<.*>::emit$|Event::emit$', ev[1])]
+            evv = H.snapshot(e, emits[0][2][0]) if emits else None
+            ok = len(data) == 1 and isinstance(evv, E) and evv.var == 'LiquidityRepositioned' and len(evv.fields) == len(fields)
+            ob('shape', TRUE if ok else FALSE, f'{len(emits)} events')
+            if not ok: continue
+            F = dict(zip(fields, evv.fields))
+            meth = data[0][1].get('method')
+            new_liq, min_a, min_b, max_a, max_b = [x.t for x in meth.fields]
+            locked = rets(e, p, r'pino_is_locked_position$')
+            ob('locked_position_refused', T.not_(locked[0][1].t) if (locked and isinstance(locked[0][1], B)) else FALSE)
+            incl = rets(e, p, r'pino_calculate_transfer_fee_included_amount$'); excl = rets(e, p, r'pino_calculate_transfer_fee_excluded_amount$')
+            def conv(calls, amt):
+                """list of (arg == amt, ret) for recorded conversions"""
+                out = []
+                for args, rv in calls:
+                    a = [x for x in args if isinstance(x, I)]
+                    if a and isinstance(rv, S): out.append((T.cmp('=', a[-1].t, amt), rv))
+                return out
+            for tok, mn, mx in (('a', min_a, max_a), ('b', min_b, max_b)):
+                dec, inc = F[f'existing_range_token_{tok}_amount'].t, F[f'new_range_token_{tok}_amount'].t
+                tr, from_owner = F[f'token_{tok}_transfer_amount'].t, F[f'is_token_{tok}_transfer_from_owner'].t
+                c_ex = conv(excl, dec)
+                ob(f'minimum_on_old_range_withdrawal_net_of_fee:{tok}', T.or_(*[T.and_(c, T.cmp('>=', rv.get('amount').t, mn)) for c, rv in c_ex]) if c_ex else FALSE)
+                ob(f'direction_of_net_transfer:{tok}', T.beq(from_owner, T.not_(T.cmp('>', dec, inc))), 'user sends iff the new range needs at least what the old one returned')
+                c_in = conv(incl, T.sub(inc, dec))
+                send = T.or_(*[T.and_(c, T.cmp('=', tr, rv.get('amount').t), T.cmp('<=', T.add(inc, rv.get('transfer_fee').t), mx)) for c, rv in c_in]) if c_in else FALSE
+                recv = T.and_(T.cmp('=', tr, T.sub(dec, inc)), T.cmp('<=', inc, mx))
+                ob(f'net_amount_and_maximum:{tok}', T.ite(from_owner, send, recv),
+                   'user sends the fee-included difference and (new requirement + its transfer fee) <= max; or receives exactly the difference and the new requirement <= max')
+            ob('new_liquidity_from_the_argument', T.cmp('=', F['new_range_liquidity'].t, new_liq))
+            seq = order_of(p, [r'pino_verify_position_authority$', r'pino_is_locked_position$', r'MemoryMappedPosition::reset_position_range$', r'pino_transfer_from_(owner_to_vault|vault_to_owner)_v2$'])
+            ob('authority_lock_rerange_then_transfers', TRUE if seq == sorted(seq) and seq[:2] == [0, 1] and 2 in seq else FALSE, str(seq))
+            # the CPI transfers move exactly the two net amounts of the event
+            trs = rets(e, p, r'pino_transfer_from_(owner_to_vault|vault_to_owner)_v2$')
+            amts = [[x for x in a if isinstance(x, I) and x.ty == 'u64'][-1].t for a, _ in trs]
+            ob('transfers_are_the_net_amounts', T.and_(*[T.or_(T.cmp('=', x, F['token_a_transfer_amount'].t), T.cmp('=', x, F['token_b_transfer_amount'].t)) for x in amts]) if amts else TRUE, f'{len(amts)} transfers')
+            lds = rets(e, p, r'convert_to_liquidity_delta$')
+            modifies = len(rets(e, p, r'pino_sync_modify_liquidity_values$'))
+            ob('old_range_fully_withdrawn_before_rerange', TRUE if (modifies in (1, 2) and len(lds) == modifies) else FALSE, f'{modifies} liquidity modifications')
+            # (that the withdrawn amount is the position's whole liquidity is not stated here: the accessor `position.liquidity()` is an independent havoc per call)
+        ctx.functions.update(e.executed)
+        ctx.add(f'M:{handler}:vacuity', 'M', 'discharged' if n_ok else 'fault', 0, f'{n_ok} successful paths of {len(outs)}', False)
+        ctx.discharge(obls)
+    return task
+
+
 def tasks():
     return [('pino:increase_liquidity', increase_task('increase_liquidity')), ('pino:increase_liquidity_v2', increase_task('increase_liquidity_v2')),
             ('pino:decrease_liquidity', decrease_task('decrease_liquidity')), ('pino:decrease_liquidity_v2', decrease_task('decrease_liquidity_v2')),
-            ('pino:increase_liquidity_by_token_amounts_v2', by_token_amounts_task())]
+            ('pino:increase_liquidity_by_token_amounts_v2', by_token_amounts_task()), ('pino:reposition_liquidity_v2', reposition_task())]
